@@ -475,9 +475,19 @@ impl Parent {
             Some(d) => d,
             None => return,
         };
-        match self.death_sig(end, a) {
+        let mut verdict = self.death_sig(end, a);
+        if let (Ok((sig, _)), Some(Kill::HangCpu(_))) = (&verdict, &end.killed) {
+            // second opinion in a fresh process: CPU time is not entirely load independent
+            let r = self.replay_obj(dec, a, &a.input, &a.class);
+            let again = self.probe_death(&r);
+            if again.as_deref() != Some(sig.as_str()) {
+                self.report.stat("hang_not_confirmed_on_rerun", 1);
+                verdict = Err("unconfirmed".into());
+            }
+        }
+        match verdict {
             Err(why) => {
-                if why != "budget" {
+                if why != "budget" && why != "unconfirmed" {
                     self.report.inconclusive(why);
                 }
             }
